@@ -284,6 +284,11 @@ func (m c09) placement(c *core.Ctx, wl c09wl, point string, nth int, action stri
 	if wl.eval {
 		ev = ugo.NewEval(ugo.CompilerOptions{ModuleMap: c09modules()}, globals)
 		vm = ev.VM
+		// an earlier fragment of the session: its variable must still be there after the cancelled fragment
+		if _, _, err := ev.Run(context.Background(), []byte("keep := 41")); err != nil {
+			c.Inconclusive("eval session setup failed: " + err.Error())
+			return
+		}
 	} else {
 		bc, err := ugo.Compile([]byte(wl.src), ugo.CompilerOptions{ModuleMap: c09modules()})
 		if err != nil {
@@ -553,6 +558,29 @@ poll:
 	c.Nontrivial(fmt.Sprintf("%s|%s|%d|%s|%s", wlname, point, nth, action, order))
 	// the VM must run later scripts normally
 	ugo.SetVerifHook(nil)
+	if wl.eval {
+		// ... and so must the session: a later fragment sees what the fragments before the cancelled one declared
+		var fv ugo.Object
+		var fe error
+		fd := make(chan struct{})
+		go func() {
+			defer close(fd)
+			fv, _, fe = ev.Run(context.Background(), []byte("return keep + 1"))
+		}()
+		select {
+		case <-fd:
+		case <-time.After(10 * time.Second):
+			c09abort(vm)
+			c.Violation("C09|eval-session-after-cancel|"+wlname+"|"+point+"|hang", "the Eval session does not evaluate a later fragment after a cancelled one (10 s)", wit("session follow-up hangs", adv))
+			c09stuck.Store(true)
+			return
+		}
+		if fe != nil || fv != ugo.Int(42) {
+			c.Violation("C09|eval-session-after-cancel|"+wlname+"|"+point, fmt.Sprintf("after a fragment was cancelled at %s the session lost its state: `keep := 41` ... `return keep + 1` gives (%v, %v)", point, fv, trunc(fmt.Sprint(fe), 160)), wit("session follow-up", adv))
+			return
+		}
+		c.Count("eval_session_followup_ok")
+	}
 	if got := c09followup(vm); got != "i:90" {
 		c.Violation("C09|followup|"+wlname+"|"+point, "an aborted VM does not run a later script normally: "+got, wit("follow-up "+got, adv))
 		return
